@@ -29,7 +29,13 @@ func replayMode(r *common.Run, sk *sink) {
 	// directed: the replica that is sending a snapshot over a slow link is restarted on its running
 	// NodeHost (StopShard + StartReplica) after a newer snapshot was recorded
 	for _, c := range r.MyCases(r.Pick(4, 32)) {
-		runRestartDuringSend(r, sk, c, r.Rand("restart-during-send", c), r.SubSeed("restart-during-send-seed", c))
+		runRestartDuringSend(r, sk, c, false, r.Rand("restart-during-send", c), r.SubSeed("restart-during-send-seed", c))
+		r.Flush()
+	}
+	// directed: the same, but the replica that is *receiving* the image is restarted on its running
+	// NodeHost after the first chunk arrived (its start-up cleanup removes .receiving directories)
+	for _, c := range r.MyCases(r.Pick(4, 32)) {
+		runRestartDuringSend(r, sk, c, true, r.Rand("restart-during-receive", c), r.SubSeed("restart-during-receive-seed", c))
 		r.Flush()
 	}
 	// directed: a replica is stopped and started again on its running NodeHost while its snapshot
@@ -367,21 +373,25 @@ func runCatchUpKind(r *common.Run, sk *sink, caseNo int, mostlyOnDisk bool, rng 
 // its replica is restarted in-process (StopShard + StartReplica on the running NodeHost). Nothing
 // may crash; the follower must be caught up in the end (C08: a lagging follower is brought up to
 // date by a snapshot rather than left with a gap).
-func runRestartDuringSend(r *common.Run, sk *sink, caseNo int, rng *rand.Rand, seed int64) {
+func runRestartDuringSend(r *common.Run, sk *sink, caseNo int, receiver bool, rng *rand.Rand, seed int64) {
+	name := "restart-during-send"
+	if receiver {
+		name = "restart-during-receive"
+	}
 	kind := []cluster.SMKind{cluster.Regular, cluster.Concurrent}[rng.Intn(2)]
 	store := cluster.Pebble
 	if rng.Intn(3) == 0 {
 		store = cluster.Tan
 	}
 	ballast := 4<<20 + 4096 + rng.Intn(1<<20) // three chunks: loaded when the send starts, and after one and two chunk delays
-	fmt.Printf("restart-during-send case %d sm %s store %s ballast %d\n", caseNo, kind, store, ballast)
+	fmt.Printf("%s case %d sm %s store %s ballast %d\n", name, caseNo, kind, store, ballast)
 	c := cluster.NewCluster(cluster.Options{Hosts: 3, Seed: seed, RTTMs: 5, Store: store,
 		SMOpt: func(uint64, uint64) cluster.SMOptions {
 			return cluster.SMOptions{Kind: kind, RecordApply: true, Ballast: ballast}
 		}}, sk)
 	const shardID = 1
 	if err := c.StartAll(); err != nil {
-		r.Inconclusive(fmt.Sprintf("restart-during-send case %d: start failed: %v", caseNo, err))
+		r.Inconclusive(fmt.Sprintf(name+" case %d: start failed: %v", caseNo, err))
 		return
 	}
 	defer c.StopAll()
@@ -394,12 +404,12 @@ func runRestartDuringSend(r *common.Run, sk *sink, caseNo int, rng *rand.Rand, s
 	}
 	for i := 0; i < 3; i++ {
 		if err := c.Hosts[i].StartReplica(members, false, kind, shardCfg(i)); err != nil {
-			r.Inconclusive(fmt.Sprintf("restart-during-send case %d: %v", caseNo, err))
+			r.Inconclusive(fmt.Sprintf(name+" case %d: %v", caseNo, err))
 			return
 		}
 	}
 	if !waitFor(15*time.Second, func() bool { return c.LeaderHost(shardID, replicas) >= 0 }) {
-		r.Inconclusive(fmt.Sprintf("restart-during-send case %d: no leader", caseNo))
+		r.Inconclusive(fmt.Sprintf(name+" case %d: no leader", caseNo))
 		return
 	}
 	propose := func(n int) int {
@@ -423,7 +433,7 @@ func runRestartDuringSend(r *common.Run, sk *sink, caseNo int, rng *rand.Rand, s
 	propose(15)
 	li := c.LeaderHost(shardID, replicas)
 	if li < 0 {
-		r.Inconclusive(fmt.Sprintf("restart-during-send case %d: leader lost", caseNo))
+		r.Inconclusive(fmt.Sprintf(name+" case %d: leader lost", caseNo))
 		return
 	}
 	f := (li + 1 + rng.Intn(2)) % 3
@@ -438,7 +448,23 @@ func runRestartDuringSend(r *common.Run, sk *sink, caseNo int, rng *rand.Rand, s
 	}
 	// a newer snapshot on the sender, then its replica is restarted on the running NodeHost
 	lh := c.Hosts[li]
-	if nh := lh.NodeHost(); nh != nil {
+	if receiver {
+		// the receiving replica is restarted on its running NodeHost while the rest of the image is
+		// still on its way
+		time.Sleep(time.Duration(50+rng.Intn(200)) * time.Millisecond)
+		fh := c.Hosts[f]
+		if nh := fh.NodeHost(); nh != nil && sending {
+			if nh.StopShard(shardID) == nil {
+				for try := 0; try < 200; try++ {
+					if fh.RestartReplica(members, kind, shardCfg(f)) == nil {
+						sk.Count("restart_during_receive_in_process_restarts", 1)
+						break
+					}
+					time.Sleep(5 * time.Millisecond)
+				}
+			}
+		}
+	} else if nh := lh.NodeHost(); nh != nil {
 		propose(3)
 		ctx, cancel := context.WithTimeout(context.Background(), 2*time.Second)
 		_, _ = nh.SyncRequestSnapshot(ctx, shardID, dragonboat.SnapshotOption{})
@@ -459,10 +485,10 @@ func runRestartDuringSend(r *common.Run, sk *sink, caseNo int, rng *rand.Rand, s
 	converged := waitFor(30*time.Second, func() bool { return sameState(c, shardID, replicas) })
 	if !converged {
 		sk.Count("not_converged_after_heal", 1)
-		r.Inconclusive(fmt.Sprintf("restart-during-send case %d: replicas did not reach equal state within 30s", caseNo))
+		r.Inconclusive(fmt.Sprintf(name+" case %d: replicas did not reach equal state within 30s", caseNo))
 	}
-	replayCheck(c, sk, shardID, replicas, caseNo, "after-restart-during-send")
-	r.Case(sending && converged, common.Hash("restart-during-send", caseNo, kind.String(), store.String()))
+	replayCheck(c, sk, shardID, replicas, caseNo, "after-"+name)
+	r.Case(sending && converged, common.Hash(name, caseNo, kind.String(), store.String()))
 }
 
 // runRestartDuringSave: StopShard + StartReplica on a running NodeHost, 100 times in a row, each time
